@@ -12,6 +12,10 @@ use vt::{ensure_prop, fail};
 
 #[derive(Clone, Debug, Serialize, Deserialize)]
 enum PayClass {
+	/// zero payload bytes; only generated when source and output are both compressed, so that the
+	/// stored tile is a non-empty gzip/brotli stream in every container (a zero-length stored
+	/// tile cannot be told from an absent one in several formats)
+	Empty,
 	OneByte(u8),
 	Incompressible { len: u32, seed: u32 },
 	Compressible { len: u32, seed: u32 },
@@ -21,6 +25,7 @@ enum PayClass {
 impl PayClass {
 	fn bytes(&self) -> Vec<u8> {
 		match self {
+			PayClass::Empty => vec![],
 			PayClass::OneByte(b) => vec![*b],
 			PayClass::Incompressible { len, seed } => Mix::new(*seed as u64).bytes(*len as usize),
 			PayClass::Compressible { len, seed } => {
@@ -61,6 +66,7 @@ struct Case {
 fn pay() -> impl Strategy<Value = PayClass> {
 	prop_oneof![
 		2 => any::<u8>().prop_map(PayClass::OneByte),
+		1 => Just(PayClass::Empty),
 		3 => (200u32..4096, any::<u32>()).prop_map(|(len, seed)| PayClass::Incompressible { len, seed }),
 		2 => (10_000u32..100_000, any::<u32>()).prop_map(|(len, seed)| PayClass::Compressible { len, seed }),
 		1 => any::<u32>().prop_map(|seed| PayClass::Mixed70k { seed }),
@@ -91,6 +97,14 @@ fn strategy() -> impl Strategy<Value = Case> {
 				}
 				Target::Pmtiles => format = [Fmt::Pbf, Fmt::Png, Fmt::Jpg, Fmt::Webp, Fmt::Avif][f % 5],
 				_ => {}
+			}
+			let mut tiles = tiles;
+			if source_comp == Comp::None || target_comp.unwrap_or(source_comp) == Comp::None {
+				for t in tiles.iter_mut() {
+					if matches!(t.2, PayClass::Empty) {
+						t.2 = PayClass::OneByte(0);
+					}
+				}
 			}
 			Case { target, format, source_comp, target_comp, force, z, tiles, meta }
 		})
@@ -165,6 +179,7 @@ fn oracle(case: &Case, obs: &mut Obs) -> Result<(), Fail> {
 	let big = raw.values().any(|b| b.len() > 65536);
 	obs.label_if(big, "payload>64KiB");
 	obs.label_if(raw.values().any(|b| b.len() == 1), "payload=1B");
+	obs.label_if(raw.values().any(|b| b.is_empty()), "payload=0B(compressed)");
 	obs.nontrivial(case.force || case.target_comp.map(|c| c != case.source_comp).unwrap_or(false));
 	Ok(())
 }
@@ -173,7 +188,7 @@ fn main() {
 	let mut check = Check::from_args(
 		"C04",
 		"exploration",
-		"1-5 raw payloads per case from the classes {1 byte, incompressible 200 B-4 KiB, compressible 10-100 KiB, 70 KiB mixed, tiny} stored in an in-memory source compressed with flate2/brotli directly (3 source compressions) x target compression {keep, none, gzip, brotli} x force flag x 5 target formats (format chosen so that the pair is expressible) x TileJSON document; oracle: independent decoder of the output: declared compression = requested, every tile decoded with the harness's decompressor for the declared compression = raw payload, metadata decodes to the same JSON keys; non-trivial = target differs from the source compression or recompression is forced",
+		"1-5 raw payloads per case from the classes {0 bytes (only between compressed source and compressed output), 1 byte, incompressible 200 B-4 KiB, compressible 10-100 KiB, 70 KiB mixed, tiny} stored in an in-memory source compressed with flate2/brotli directly (3 source compressions) x target compression {keep, none, gzip, brotli} x force flag x 5 target formats (format chosen so that the pair is expressible) x TileJSON document; oracle: independent decoder of the output: declared compression = requested, every tile decoded with the harness's decompressor for the declared compression = raw payload, metadata decodes to the same JSON keys; non-trivial = target differs from the source compression or recompression is forced",
 	);
 	check.assume("flate2 and brotli crates as independent reference implementations of gzip/brotli");
 	vt::engine::watchdog(3600);
